@@ -27,6 +27,12 @@ func patternBytes(n int) []byte {
 
 const crashName = "AAAAAAAAAAAAAAAAAAAAAAAAAAAAAAAAAAAAAAAAAAA"
 
+// childName: the name the child process stores (the node name, or a long one: see `fcrashl`)
+var childName = crashName
+
+// longName: a name of l characters from the node-name alphabet
+func longName(l int) string { return strings.Repeat("Ab-_9", l/5+1)[:l] }
+
 // childFileStore runs in a child process: it limits the size any file may reach to `limit`
 // bytes and then calls the real file Store. mode "crash": the process is killed by SIGXFSZ at
 // the byte where the write is cut; mode "ioerr": the write fails with EFBIG and Store returns.
@@ -52,7 +58,7 @@ func childFileStore(dir string, n, limit int, mode string) {
 		}
 	}
 	p := mfile.NewPersistForPath(dir)
-	err := p.Store(context.Background(), crashName, patternBytes(n))
+	err := p.Store(context.Background(), childName, patternBytes(n))
 	if err != nil {
 		os.Exit(3)
 	}
@@ -63,6 +69,9 @@ type fileCrashExec struct{}
 
 func (fileCrashExec) Exec(line string) (obs, viol string) {
 	t := strings.Fields(line)
+	if t[0] == "fcrashl" {
+		return execCrashLong(t)
+	}
 	if t[0] != "fcrash" {
 		return "bad-op", ""
 	}
@@ -126,6 +135,9 @@ func (fileCrashExec) Exec(line string) (obs, viol string) {
 
 func (fileCrashExec) ModelLine(line string) string {
 	t := strings.Fields(line)
+	if t[0] == "fcrashl" {
+		return "echo ok" // oracle only: the step model speaks of node names
+	}
 	n, _ := strconv.Atoi(t[1])
 	cut, _ := strconv.Atoi(t[2])
 	// model steps: stat, createTemp, one per byte, close+chmod, rename
@@ -159,6 +171,17 @@ func famFileCrash(f *FamCtx) {
 		}
 		exhaustive++
 		f.RunTreeCase(Case{cfg, ops}, rn, func(CaseStats) bool { return n > 1 })
+	}
+	// long names (the file name, or the temporary name next to it, may not fit the file system's limit)
+	for i := 0; i < f.N(2, 12); i++ {
+		n := 1 + f.Rand.Intn(40)
+		var ops []string
+		for _, l := range []int{200, 240, 244, 245, 246, 247, 248, 250, 254, 255} {
+			for j := 0; j < 2; j++ {
+				ops = append(ops, fmt.Sprintf("fcrashl %d %d %s %d", n, f.Rand.Intn(n+1), pick(f.Rand, []string{"crash", "ioerr"}), l))
+			}
+		}
+		f.RunTreeCase(Case{cfg, ops}, rn, func(CaseStats) bool { return true })
 	}
 	// larger nodes, sampled cuts
 	f.Gen = func() Case {
@@ -203,3 +226,59 @@ func famFileCrash(f *FamCtx) {
 }
 
 var _ = rand.Int
+
+// execCrashLong: fcrashl <n> <cut> <mode> <l>: as fcrash, under a name of l characters (200..255)
+// from the node-name alphabet.  A file system may refuse such a name (or the name of the temporary
+// file next to it): a refused write is an error returned to the caller and leaves nothing; what may
+// never happen is a partial file under the name, or a success that is not complete.  Oracle only.
+func execCrashLong(t []string) (obs, viol string) {
+	n, _ := strconv.Atoi(t[1])
+	cut, _ := strconv.Atoi(t[2])
+	mode := t[3]
+	l, _ := strconv.Atoi(t[4])
+	name := longName(l)
+	dir, err := os.MkdirTemp("", "verif-filecrashl-")
+	if err != nil {
+		panic(err)
+	}
+	defer os.RemoveAll(dir)
+	self, _ := os.Executable()
+	cmd := exec.Command(self, "-child-filestore", dir, strconv.Itoa(n), strconv.Itoa(cut), mode, strconv.Itoa(l))
+	out, _ := cmd.CombinedOutput()
+	code := cmd.ProcessState.ExitCode()
+	if code == 4 {
+		return "harness-error " + string(out), ""
+	}
+	want := patternBytes(n)
+	p := mfile.NewPersistForPath(dir)
+	classify := func() string {
+		b, err := p.Load(context.Background(), name)
+		if err != nil {
+			if os.IsNotExist(err) {
+				return "absent"
+			}
+			return "loaderr"
+		}
+		if bytes.Equal(b, want) {
+			return "complete"
+		}
+		return fmt.Sprintf("partial(%d/%d)", len(b), n)
+	}
+	after := classify()
+	where := fmt.Sprintf("write of %d bytes under a name of %d characters cut at offset %d (%s)", n, l, cut, mode)
+	if strings.HasPrefix(after, "partial") || after == "loaderr" {
+		viol = fmt.Sprintf("%s: a later load returns %s", where, after)
+	}
+	if code == 0 && after != "complete" {
+		viol = where + ": the write reported success but a later load returns " + after
+	}
+	err = p.Store(context.Background(), name, want)
+	again := classify()
+	if viol == "" && err == nil && again != "complete" {
+		viol = fmt.Sprintf("%s, then stored again with success: a later load returns %s (not repaired)", where, again)
+	}
+	if viol == "" && err != nil && again != "absent" && again != "complete" {
+		viol = fmt.Sprintf("%s, then a store that failed (%v): a later load returns %s", where, err, again)
+	}
+	return "ok", viol
+}
